@@ -131,7 +131,7 @@ class Monobit(Model):
         self.bit = bit
 
     def _compute(self, data, axis):
-        return (_np.bitwise_and(data, 2 ** self.bit) > 0).astype('uint8')
+        return (_np.bitwise_and(_np.right_shift(data, self.bit), 1) > 0).astype('uint8')
 
     @property
     def max_data_value(self):
